@@ -16,13 +16,6 @@ impl Fig {
         }
         t.parse::<f64>().ok().filter(|v| v.is_finite())
     }
-    /// digits after the decimal point
-    pub fn decimals(&self) -> usize {
-        match self.0.trim().split_once('.') {
-            Some((_, frac)) if frac.bytes().all(|b| b.is_ascii_digit()) => frac.len(),
-            _ => 0,
-        }
-    }
     pub fn from_json(v: &Value) -> Fig {
         Fig(v.to_string())
     }
@@ -192,7 +185,6 @@ pub fn decode_covdir(text: &str) -> Result<Vec<CdNode>, String> {
 pub struct CobLine {
     pub number: u64,
     pub hits: u64,
-    pub branch: bool,
     pub conds: Vec<Fig>,
 }
 #[derive(Clone, Debug)]
@@ -322,7 +314,6 @@ pub fn decode_cobertura(text: &str) -> Result<CobDoc, String> {
                     lines.push(CobLine {
                         number: num(&attr(&a, "number")?)?,
                         hits: num(&attr(&a, "hits")?)?,
-                        branch: a.iter().any(|(k, v)| k == "branch" && v == "true"),
                         conds: vec![],
                     });
                 } else {
